@@ -509,6 +509,46 @@ theorem hook_order_join_operation (f g : Mach) (hf : f.Extends) (hg : g.Extends)
         else ∃ evg rg, o.w.trace = .ret b rg :: (evg ++ .call b :: tf) :=
   mergeO_trace f g hf hg a b s t d arg w
 
+/-- `Handler.Join` (and `Handler.PreHook(prev) = prev.Join(of)`): both handlers run, in order, unless
+    the first panics. -/
+theorem hook_order_join_handler (f g : Mach) (hf : f.Extends) (hg : g.Extends) (a b : Nat)
+    (s : f.σ) (t : g.σ) (d : Bool) (arg : Int) (w : World) :
+    ∃ evf, let o := (mergeH (probe a f) (probe b g)).call (s, t) d arg w
+      let r := (probe a f).call s d arg w
+      let tf := Ev.ret a r.res :: (evf ++ .call a :: w.trace)
+      match r.res with
+      | .panic p => o.w.trace = tf ∧ o.res = .panic p
+      | .ret _ _ => ∃ evg rg, o.w.trace = .ret b rg :: (evg ++ .call b :: tf) :=
+  mergeH_trace f g hf hg a b s t d arg w
+
+/-- `Future.Join(merge, ops...)`: each step evaluates the accumulated future first, then the next one. -/
+theorem hook_order_join_future (f g : Mach) (hf : f.Extends) (hg : g.Extends) (a b : Nat)
+    (s : f.σ) (t : g.σ) (d : Bool) (arg : Int) (w : World) :
+    ∃ evf, let o := (mergeF (probe a f) (probe b g)).call (s, t) d arg w
+      let r := (probe a f).call s d arg w
+      let tf := Ev.ret a r.res :: (evf ++ .call a :: w.trace)
+      match r.res with
+      | .panic p => o.w.trace = tf ∧ o.res = .panic p
+      | .ret _ _ => ∃ evg rg, o.w.trace = .ret b rg :: (evg ++ .call b :: tf) :=
+  mergeF_trace f g hf hg a b s t d arg w
+
+/-- `Producer.Join(next)`: once the first producer is finished with (it returned io.EOF or failed: any
+    stage but "run first") no later call touches it again — the second producer never runs before
+    the first is done, and the first never after. -/
+theorem hook_order_join_producer (f g : Mach) (j : PJoinSt) (s : f.σ) (t : g.σ) (d : Bool) (arg : Int) (w : World)
+    (h : j.stage ≠ 0) : ((joinP f g).call (j, s, t) d arg w).st.2.1 = s :=
+  joinP_first_untouched f g j s t d arg w h
+
+/-- non-vacuity: first producer yields 1 then io.EOF, second 7 then io.EOF; afterwards io.EOF for ever,
+    and neither producer is invoked again -/
+example : ((run (joinP (base .producer 0) (base .producer 11))
+    [{ res := .ret 1 [] }, { res := .ret 0 [.eof] }, { res := .ret 7 [] }, { res := .ret 0 [.eof] }, { res := .ret 9 [] }]
+    [.call 0, .call 0, .call 0, .call 0]).1,
+    (run (joinP (base .producer 0) (base .producer 11))
+    [{ res := .ret 1 [] }, { res := .ret 0 [.eof] }, { res := .ret 7 [] }, { res := .ret 0 [.eof] }, { res := .ret 9 [] }]
+    [.call 0, .call 0, .call 0, .call 0]).2.2.script.length)
+    = ([.ret 1 [], .ret 7 [], .ret 0 [.eof], .ret 0 [.eof]], 1) := by decide
+
 /-- non-vacuity (the hypotheses `Extends` hold for the scripted functions) and the abort: the first
     part cancels the context, the second does not run -/
 example : (base .worker 0).Extends ∧ (base .operation 11).Extends := ⟨base_extends _ _, base_extends _ _⟩
